@@ -28,7 +28,9 @@ RULE = ("names: description = prefix (Ethernet, Eth, Gi, GigabitEthernet, Port-c
         "with an argument of the wrong type (parse_single_interface(5), parse_intf_short/long(None|'x'), check_interface_dict(5), "
         "prefix = 5, CiscoIOSInterface(5 | interface_dict=5 | nothing)); xrange = the range stream again with result_type None / "
         "CiscoIOSInterface / str, reverse on/off and as_list / as_set over every rung of the result_type ladder (auto, None, an "
-        "instance, str, int, float, invalid), container kind and member kind compared. Anchored statements executed by the quick run: "
+        "instance, str, int, float, invalid), container kind and member kind compared, interleaved with iteration, len, str(), repr(), "
+        "obj[k] (inside and beyond the end), == against a freshly parsed range and the raw obj.data (half of these ranges have "
+        "reverse=True: it must show in as_list only, and reading must not change the object). Anchored statements executed by the quick run: "
         "360 of 469 (was 305); the 109 left are debug logging, CiscoIOSXRInterface (out of scope), and branches that cannot execute "
         "(card / slot iteration in parse_cisco_interfaces: the port is always an int; the separator ladder of parse_intf_long after "
         "_sep2 = sep1; groupdict() is None; sys.exit(99) in number) - notes/coverage/C15.json.")
@@ -42,7 +44,8 @@ LEVEL_TEXT = ("Theorems (Lean 4, all inputs): parse(render d) = d for every well
               "check_dict_spec (accepted iff eight known keys), ctor_dict_spec (full key set gives the object back, a missing key other than "
               "card raises KeyError), range_typed_views (as_list(result_type=None|str) ascending, descending exactly under reverse=True; "
               "as_set the same members; the constructor's result_type None / CiscoIOSInterface / str all give the same data), "
-              "range_bad_casts (int / float / instance / invalid casts are refused on a non-empty range). "
+              "range_bad_casts (int / float / instance / invalid casts are refused on a non-empty range), range_further_readers (str / repr / "
+              "obj[k] / == / obj.data are functions of the data alone, a range that was only read is == to a freshly parsed one). "
               "The model (hand-written scanners for the five regexes of "
               "CiscoIOSInterface, slot/card/port assignment, rendering, sort_list order, hash, CiscoRange.parse_cisco_interfaces "
               "and its read accessors) is tied to the code by differential runs on every check.")
@@ -236,13 +239,15 @@ def _rand_keys(rng):
 
 def _rand_xops(rng):
     ops = []
-    for _ in range(rng.choice([2, 3, 4, 6])):
+    for _ in range(rng.choice([2, 3, 4, 6, 8])):
         r = rng.random()
-        if r < 0.7:
+        if r < 0.5:
             ops.append(rng.choice(["list", "set"]) + ":" + rng.choice(VIEW_TYPES))
+        elif r < 0.75:
+            ops.append(rng.choice(["str", "repr", "eqfresh", "data", "data", "idx:%d" % rng.choice([0, 0, 1, 2, 3, 7, 50, 500])]))
         else:
             ops.append(rng.choice(READS))
-    return ["len"] + ops + ["list:none", "set:auto", "iter", "len"]
+    return ["len"] + ops + ["list:none", "data", "set:auto", "iter", "eqfresh", "len"]
 
 
 X_FIXED_RANGES = ["", "Eth1/1-3,7", "Port-channel1-3", "Serial1/0:1-3,5", "Eth1/1.1-3,.5", "Serial1/0-5 multipoint", "Eth1/3-1",
@@ -260,7 +265,8 @@ def _x_cases(rng, tier):
         for t in X_FIXED_RANGES:
             for rt in RANGE_RTS:
                 for rev in (0, 1):
-                    yield mk_xrange(t, rt, rev, ["len", "iter"] + ["%s:%s" % (m, v) for v in VIEW_TYPES for m in ("list", "set")])
+                    yield mk_xrange(t, rt, rev, ["len", "iter"] + ["%s:%s" % (m, v) for v in VIEW_TYPES for m in ("list", "set")]
+                                    + ["data", "str", "repr", "idx:0", "idx:3", "idx:4", "eqfresh", "list", "data", "iter"])
     n = {"quick": 2000, "thorough": 60000, "search": 2000}[tier]
     for i in range(n):
         r = rng.random()
@@ -621,7 +627,7 @@ def _impl_x(case, CiscoIOSInterface, CiscoRange):
         out = ["ok"]
         for op in case["ops"]:
             f = op.split(":")
-            if len(f) == 2:
+            if len(f) == 2 and f[0] in ("list", "set"):
                 meth = obj.as_list if f[0] == "list" else obj.as_set
                 try:
                     if f[1] == "auto":
@@ -636,6 +642,22 @@ def _impl_x(case, CiscoIOSInterface, CiscoRange):
                     if n not in ERRS + ("ListItemMissingAttribute",):
                         raise
                     out.append("err:" + n)
+            elif op == "str":
+                out.append(wire.enc_str(str(obj)))
+            elif op == "repr":
+                out.append(wire.enc_str(repr(obj)))
+            elif f[0] == "idx":
+                try:
+                    m = obj[int(f[1])]
+                    out.append(_render(m) if type(m) is CiscoIOSInterface else "?" + repr(m)[:40])
+                except IndexError:
+                    out.append("err:IndexError")
+            elif op == "eqfresh":
+                r = obj == CiscoRange(case["text"], result_type=None)
+                out.append("T" if r is True else "F" if r is False else "?" + repr(r)[:40])
+            elif op == "data":
+                d = obj.data
+                out.append(" ".join(_render(m) for m in d) if type(d) is list else "?" + repr(d)[:40])
             else:
                 out.append(_range_op(obj, op))
         return "|".join(out)
@@ -764,7 +786,24 @@ def _oracle_x(case, ans):
         tag = "bare-part: " if case["style"] == "bare" else ""
         for op, got in zip(case["ops"], ans.split("|")[1:]):
             f = op.split(":")
-            if len(f) == 2:
+            if op in ("str", "repr"):
+                inner = "[" + ", ".join(members) + "]"
+                exp = inner if op == "str" else f"<CiscoRange {inner} members: <class 'ciscoconfparse2.ccp_util.CiscoIOSInterface'>>"
+                if got != wire.enc_str(exp):
+                    fails.append(f"{tag}{op}() is {wire.dec_str(got)[:100] if got.startswith('s') else got!r}")
+            elif f[0] == "idx":
+                k = int(f[1])
+                exp = wire.enc_str(members[k]) if k < len(members) else "err:IndexError"
+                if got != exp:
+                    fails.append(f"{tag}obj[{k}] gives {wire.dec_str(got) if got.startswith('s') else got} of {len(members)} members")
+            elif op == "eqfresh":
+                if got != "T":
+                    fails.append(f"{tag}the range is not == to a freshly parsed one after reading it")
+            elif op == "data":
+                exp = " ".join(wire.enc_str(m) for m in members)
+                if got != exp:
+                    fails.append(f"{tag}obj.data is {[wire.dec_str(x) for x in got.split(' ')][:12] if got[:1] == 's' else got} expected {members[:12]}")
+            elif len(f) == 2:
                 if f[1] not in ("auto", "none", "str"):
                     continue      # the property does not say what an int / float cast of an interface is
                 if got.startswith("err"):
